@@ -350,6 +350,7 @@ class Interp:
         self.eff = prog.native_effects()
         self.pins = pins or {}          # native name -> constant result(s) pushed
         self.models = native_models or {}
+        self.unroll_concrete = False     # execute fully constant states path by path (no joins)
         self.split_rets = split_rets      # keep the exit states of a word's different `ret`s apart (path-sensitive summaries)
         self.field_ranges = field_ranges or {}     # context offset -> (lo, hi) of the byte/half-word stored there (justified invariants)
         self.evmap = {}
@@ -635,11 +636,16 @@ class Interp:
             ins = []
             for k, a in enumerate(args):
                 lo, hi = st.rng(a)
-                ins.append(cs.newsym('a%d.%d' % (w, k), lo, hi))
+                if lo == hi and abs(lo) < (1 << 40):
+                    ins.append(C(int(lo)))        # a known constant stays a constant inside the summary
+                else:
+                    ins.append(cs.newsym('a%d.%d' % (w, k), lo, hi))
             cs.stack = list(ins)
-            cs.pinned = frozenset(x.t[0][0] for x in ins)
+            cs.pinned = frozenset(x.t[0][0] for x in ins if x.t)
             for i_, j_, sg, l, h in rel:
-                cs.facts[ins[i_] + ins[j_].scale(sg)] = (l, h)
+                fe_ = ins[i_] + ins[j_].scale(sg)
+                if not fe_.isconst():
+                    cs.facts[fe_] = (l, h)
             cs.locs = [C(0)] * W.nloc
             self.inprogress.add((w, key))
             self.cur.append(key)
@@ -664,7 +670,8 @@ class Interp:
             tag = tag + 'x%d.' % nth
         m = {}
         for s_, a in zip(ins, args):
-            m[s_.t[0][0]] = a
+            if s_.t:
+                m[s_.t[0][0]] = a
         res = st.clone()
         res.stack = st.stack[:len(st.stack) - need] if need else list(st.stack)
         old = [k for k in res.live() if k.startswith(tag)]
@@ -695,6 +702,8 @@ class Interp:
                 res.preds[conv(pv)] = self.conv_pred(pr, conv)
         # refinements the callee made on its arguments (e.g. a check that fails otherwise)
         for s_, a in zip(ins, args):
+            if not s_.t:
+                continue
             k = s_.t[0][0]
             l, h = out.env.get(k, (LO32, HI32))
             res.refine(a, l, h)
@@ -720,6 +729,7 @@ class Interp:
                 preds_count[s_] += 1
         backtargets = set(i.arg for i in W.ins.values() if i.kind in ('jump', 'jumpif', 'jumpifnot') and i.arg <= i.pc)
         work = [(W.start, st0)]
+        concrete_seen = set()
         outs = {}
         steps = 0
         while work:
@@ -737,11 +747,26 @@ class Interp:
                     if visits[pc] > self.max_visits:
                         raise AnalysisBroken('%s W%d@%d: join did not stabilise' % (self.p.key, w, pc))
                     prev = states.get(pc)
-                    ns, ch = self.join(w, pc, prev, s, widen)
+                    skip_join = False
+                    if self.unroll_concrete and all(x.isconst() for x in s.stack) and all(x.isconst() for x in s.locs):
+                        # fully concrete state: execute this path on its own (table scans over the constant data block)
+                        ck = (pc, tuple(x.c for x in s.stack), tuple(x.c for x in s.locs))
+                        if ck in concrete_seen:
+                            break
+                        if len(concrete_seen) < 4000:
+                            concrete_seen.add(ck)
+                            skip_join = True
+                    if skip_join:
+                        ns, ch = None, True
+                    else:
+                        ns, ch = self.join(w, pc, prev, s, widen)
                     if not ch:
                         break
-                    visits[pc] += 1
-                    if pc in backtargets and prev is not None and (prev.stack != ns.stack or prev.locs != ns.locs):
+                    if skip_join:
+                        pass
+                    else:
+                      visits[pc] += 1
+                    if (not skip_join) and pc in backtargets and prev is not None and (prev.stack != ns.stack or prev.locs != ns.locs):
                         # slot identities at the loop head changed (join symbols introduced): states recorded inside the
                         # loop body were computed over the old expressions and would lose every relation; recompute them
                         hi_src = max(j.pc for j in W.ins.values() if j.kind in ('jump', 'jumpif', 'jumpifnot') and j.arg == pc and j.pc >= pc)
@@ -751,8 +776,9 @@ class Interp:
                                 visits[q] = 0
                         # work items inside the loop were derived from an older head state; the new head state re-flows
                         work[:] = [(q, ws) for q, ws in work if not (pc < q <= hi_src)]
-                    states[pc] = ns
-                    s = ns.clone()
+                    if not skip_join:
+                        states[pc] = ns
+                        s = ns.clone()
                 i = W.ins[pc]
                 k = i.kind
                 if k == 'ret':
@@ -966,7 +992,7 @@ class Interp:
             lo = 0
             if a.isconst() and a.c in self.field_ranges:
                 lo, hi = self.field_ranges[a.c]
-            r = unknown(lo, hi)
+            r = C(lo) if lo == hi else unknown(lo, hi)
             push(r)
         elif name in ('set8', 'set16', 'set32'):
             a = pop(); v = pop()
